@@ -112,7 +112,7 @@ std::optional<T> parseObject(const QDomElement &el)
 }
 
 template<typename T>
-ObjectType makeType(const QString &name, QVector<Field<T>> fs, std::function<void(T &)> init = {})
+ObjectType makeType(const QString &name, QVector<Field<T>> fs, std::function<void(T &)> init = {}, const QString &contextNs = {})
 {
     ObjectType t;
     t.name = name;
@@ -120,7 +120,8 @@ ObjectType makeType(const QString &name, QVector<Field<T>> fs, std::function<voi
         t.fields << f.name;
         t.kinds << f.kind;
     }
-    t.run = [fs, init](const QVector<PlanValue> &vals) -> QJsonObject {
+    // contextNs: the namespace a sub-element inherits from the element the library writes it into
+    t.run = [fs, init, contextNs](const QVector<PlanValue> &vals) -> QJsonObject {
         QJsonArray bad;
         auto build = [&](bool plain) {
             T o {};
@@ -150,7 +151,7 @@ ObjectType makeType(const QString &name, QVector<Field<T>> fs, std::function<voi
             bad.append(QJsonObject { { "k", kind }, { "f", field }, { "want", want.left(200) }, { "got", got.left(200) } });
         };
         QJsonObject res { { "nset", nset }, { "x1", QString::fromUtf8(x1).left(600) } };
-        auto f1 = parseFragment(x1, QString());
+        auto f1 = parseFragment(x1, contextNs);
         if (!f1.wf) {
             fail("illformed", {}, {}, {});
             res["bad"] = bad;
@@ -202,14 +203,14 @@ ObjectType makeType(const QString &name, QVector<Field<T>> fs, std::function<voi
         }
         auto x2 = qxvcodec::ser(*o2);
         if (x1 != x2) {
-            auto f2 = parseFragment(x2, QString());
+            auto f2 = parseFragment(x2, contextNs);
             if (!f2.wf || canon(f1.root, false, true) != canon(f2.root, false, true)) {
                 fail("fixpoint", {}, QString::fromUtf8(x1), QString::fromUtf8(x2));
             }
         }
         // no markup injection: same element structure as with plain strings in the same fields
         T o0 = build(true);
-        auto f0 = parseFragment(qxvcodec::ser(o0), QString());
+        auto f0 = parseFragment(qxvcodec::ser(o0), contextNs);
         if (f0.wf && canon(f0.root, false, false) != canon(f1.root, false, false)) {
             fail("structure", {}, QString::fromUtf8(qxvcodec::ser(o0)), QString::fromUtf8(x1));
         }
